@@ -30,13 +30,15 @@ import (
 //	mode: tcp-recv | udp-recv | tcp-send | udp-send | hpai
 type c16Plan struct {
 	Mode      string   `json:"mode"`
-	Frames    []string `json:"frames"`            // hex of well-formed frames (reference encoder)
-	Cuts      []int    `json:"cuts,omitempty"`    // tcp-recv: segment lengths, cycled; 0 = "rest of the stream"
+	Frames    []string `json:"frames"`             // hex of well-formed frames (reference encoder)
+	Cuts      []int    `json:"cuts,omitempty"`     // tcp-recv: segment lengths, cycled; 0 = "rest of the stream"
 	PauseUs   int      `json:"pause_us,omitempty"` // tcp-recv: pause between segments
 	Senders   int      `json:"senders,omitempty"`
 	PeerClose bool     `json:"peer_close,omitempty"` // tcp-recv: the peer closes the connection at the end (else the client does)
 	TCP       bool     `json:"tcp,omitempty"`        // hpai
 	SendLocal bool     `json:"send_local,omitempty"` // hpai
+	// *-recv: the reader stays away from Inbound() this long while the frames arrive (a slow consumer)
+	ReaderPauseMs int `json:"reader_pause_ms,omitempty"`
 }
 
 const limit = 5 * time.Second
@@ -186,6 +188,7 @@ func c16RunInner(p c16Plan) *common.Fail {
 			}
 			writeErr <- nil
 		}()
+		time.Sleep(time.Duration(p.ReaderPauseMs) * time.Millisecond)
 		got, closedEarly := collect(sock.Inbound(), len(want), limit)
 		<-writeErr
 		if closedEarly {
@@ -238,6 +241,9 @@ func c16RunInner(p c16Plan) *common.Fail {
 			}
 			for k := 0; k < w; k++ {
 				pc.WriteToUDP(unhex(p.Frames[sent+k]), caddr)
+			}
+			if sent == 0 {
+				time.Sleep(time.Duration(p.ReaderPauseMs) * time.Millisecond)
 			}
 			g, closed := collect(sock.Inbound(), w, limit)
 			got = append(got, g...)
@@ -416,6 +422,9 @@ func c16RunInner(p c16Plan) *common.Fail {
 				}
 				for i := 0; i < w; i++ {
 					pc.WriteToUDP(unhex(p.Frames[sent+i]), grp)
+				}
+				if sent == 0 {
+					time.Sleep(time.Duration(p.ReaderPauseMs) * time.Millisecond)
 				}
 				g, closed := collect(sock.Inbound(), w, limit)
 				got = append(got, g...)
@@ -756,8 +765,14 @@ func genPlanC16(rt *rapid.T) c16Plan {
 			}
 		}
 		p.PeerClose = rapid.Bool().Draw(rt, "peer-close")
+		if rapid.IntRange(0, 9).Draw(rt, "slow-reader") == 0 {
+			p.ReaderPauseMs = rapid.SampledFrom([]int{5, 60, 250}).Draw(rt, "reader-pause")
+		}
 	case "udp-recv", "router-recv":
 		p.Frames = genFrames(rt, rapid.IntRange(1, 40).Draw(rt, "frames"), 1024)
+		if rapid.IntRange(0, 9).Draw(rt, "slow-reader") == 0 {
+			p.ReaderPauseMs = rapid.SampledFrom([]int{5, 60, 250}).Draw(rt, "reader-pause")
+		}
 	case "router-send":
 		p.Frames = genFrames(rt, rapid.IntRange(1, 24).Draw(rt, "frames"), 1024)
 		p.Senders = rapid.IntRange(1, 6).Draw(rt, "senders")
@@ -831,5 +846,71 @@ func TestC16(t *testing.T) {
 		return p
 	}, c16Run)
 	_ = sort.Ints
+	completed = true
+}
+
+// TestC16Slow: a consumer that stays away from Inbound() for seconds while frames arrive still gets every frame, once
+// and in order (the receivers hand over with a blocking send; nothing may be discarded on the reader's behalf).
+func TestC16Slow(t *testing.T) {
+	rec := common.NewRec("C16", "slow-reader")
+	completed := false
+	defer func() { rec.Finish(completed) }()
+	if rec.Env.Replay != "" {
+		common.ReplayOnly(t, rec, c16Run)
+		completed = true
+		return
+	}
+	pauses := []int{1100, 1700, 2600}
+	if rec.Env.Thorough() {
+		pauses = []int{1100, 1700, 2600, 5500, 11000}
+	}
+	common.Drive(t, rec, func(rt *rapid.T) c16Plan {
+		p := c16Plan{Mode: rapid.SampledFrom([]string{"tcp-recv", "udp-recv", "router-recv"}).Draw(rt, "mode")}
+		p.Frames = genFrames(rt, rapid.IntRange(2, 12).Draw(rt, "frames"), 600)
+		p.ReaderPauseMs = rapid.SampledFrom(pauses).Draw(rt, "reader-pause")
+		if p.Mode == "tcp-recv" {
+			p.PeerClose = rapid.Bool().Draw(rt, "peer-close")
+			if rapid.Bool().Draw(rt, "cut") {
+				p.Cuts = []int{rapid.IntRange(1, 40).Draw(rt, "seg")}
+				p.PauseUs = 50
+			}
+		}
+		rec.Class(fmt.Sprintf("%s reader away %d ms", p.Mode, p.ReaderPauseMs))
+		rec.NonTrivial(common.HashJSON(p))
+		rec.Sample("slow-reader", p)
+		return p
+	}, c16Run)
+	completed = true
+}
+
+// TestC15Sock: the last clause of C15 - what a socket hands to the network for a Send is the encoder's output and
+// nothing else: every datagram (every run of bytes on TCP) the peer receives is byte for byte the reference encoding
+// of a frame that was sent, whose header total length is its length - for 1..8 goroutines sending through one socket.
+func TestC15Sock(t *testing.T) {
+	rec := common.NewRec("C15", "sock")
+	completed := false
+	defer func() { rec.Finish(completed) }()
+	if rec.Env.Replay != "" {
+		common.ReplayOnly(t, rec, c16Run)
+		completed = true
+		return
+	}
+	common.Drive(t, rec, func(rt *rapid.T) c16Plan {
+		p := c16Plan{Mode: rapid.SampledFrom([]string{"udp-send", "udp-send", "tcp-send", "tcp-send", "router-send"}).Draw(rt, "mode")}
+		// frames of very different sizes next to each other: a short frame written over a long one (or the other way
+		// round) in a shared buffer shows
+		n := rapid.IntRange(2, 40).Draw(rt, "frames")
+		p.Frames = genFrames(rt, n, 1024)
+		p.Senders = rapid.IntRange(1, 8).Draw(rt, "senders")
+		if p.Mode == "router-send" && p.Senders > 6 {
+			p.Senders = 6
+		}
+		rec.Class(fmt.Sprintf("%s senders=%d", p.Mode, p.Senders))
+		if p.Senders >= 2 {
+			rec.NonTrivial(common.HashJSON(p))
+		}
+		rec.Sample(p.Mode, p)
+		return p
+	}, c16Run)
 	completed = true
 }
